@@ -16,6 +16,8 @@ from . import tr
 from ..tracer import Tracer, callback_params
 from .tagtable import check_flag_tags
 
+from .common import Guard  # noqa: E402
+
 PROP = 'C01'
 DECIDED = [
     'R1: the deferred fill of a wrapped container is registered only when PyYAML has not filled it yet (guard implies not deep and not self.deep_construct; the PyYAML fact is re-derived from the installed yaml/constructor.py on every run); R1b: both lazily filled node kinds register the matching filler; R1c: tagged nodes are constructed with deep=True.',
@@ -493,15 +495,17 @@ def r7(repo, run):
 
 
 def check(repo, run, tier):
-    r7(repo, run)
-    r1(repo, run)
-    check_flag_tags(repo, run, 'C01.R2')
-    r2b(repo, run)
-    r3(repo, run)
-    r4(repo, run)
-    plain_container_eval(repo, run, 'C01.R5')
-    ct.pairing(repo, run, 'C01.R6', classes=('ConfigDict',), ops=['__setitem__', '__delitem__', '__init__', 'update'])
-    ct.pairing(repo, run, 'C01.R6', classes=('ConfigList',), ops=['__init__', 'extend', 'append'])
+    g = Guard()
+    g(r7, repo, run)
+    g(r1, repo, run)
+    g(check_flag_tags, repo, run, 'C01.R2')
+    g(r2b, repo, run)
+    g(r3, repo, run)
+    g(r4, repo, run)
+    g(plain_container_eval, repo, run, 'C01.R5')
+    g(ct.pairing, repo, run, 'C01.R6', classes=('ConfigDict',), ops=['__setitem__', '__delitem__', '__init__', 'update'])
+    g(ct.pairing, repo, run, 'C01.R6', classes=('ConfigList',), ops=['__init__', 'extend', 'append'])
+    g.done()
 
 
 def mutants(repo):
